@@ -96,3 +96,286 @@ class AddToContext:
     def ensures_others_kept(self, context, name, obj, result):
         return (forall_keys(context, lambda k: k == name or (old(has_key(context, k)) and same(dict_lookup(context, k), old(dict_lookup(context, k)))))
                 and len(context) == old(len(context)) + 1)
+
+
+# ---------------------------------------------------------------------------------------------------------------
+# The builder's statement-level methods (C14, C16, C05, C20): what is built from an S-expression.
+from jaqalpaq.core.block import BlockStatement, LoopStatement
+from jaqalpaq.core.constant import Constant
+from jaqalpaq.core.parameter import Parameter
+from jaqalpaq.core.register import Register, NamedQubit
+from jaqalpaq.core.circuitbuilder import SExpression
+
+
+@spec
+def build_fails(b, expression, context, gate_context) -> bool:
+    """abstract: whether building a nested S-expression is refused (unknown to the callers' proofs)"""
+    ...
+
+
+@assumed("core.circuitbuilder:Builder.build", props=["C14", "C16", "C05", "C20"])
+class BuildAssumed:
+    """ASSUMED at the call sites inside the build_* methods (Builder.build dispatches with getattr on a computed method
+    name, which pyvc cannot follow); read off its first lines: an identifier denotes what the context binds it to - and
+    is refused with JaqalError when unbound -, a number, None or an already built object is returned as it is; only
+    JaqalError escapes.  The leaf cases are VERIFIED below (BuildLeaf); what a nested S-expression builds is unknown."""
+
+    def requires(self, expression, context, gate_context):
+        return type_is(self, Builder)
+
+    def ensures_identifier(self, expression, context, gate_context, result):
+        return implies(is_str(expression) and isinstance(context, dict), has_key(context, expression) and same(result, dict_lookup(context, expression)))
+
+    def ensures_leaf(self, expression, context, gate_context, result):
+        return implies(is_int(expression) or is_float(expression) or is_none(expression), same(result, expression))
+
+    def raises_JaqalError(self, expression, context, gate_context):
+        return ((is_str(expression) and not has_key(context, expression))
+                or (not (is_str(expression) or is_int(expression) or is_float(expression) or is_none(expression))
+                    and build_fails(self, expression, context, gate_context)))
+
+    raises_only = ("JaqalError",)
+
+
+@contract("core.circuitbuilder:Builder.build", props=["C14", "C07"], primary=False)
+class BuildLeaf:
+    """verified on the leaf domain (identifiers, numbers, None): an identifier denotes exactly what the context it is
+    looked up in binds it to (C07: one lookup, no fallback to another scope), an unbound one is refused with JaqalError
+    (C14: no undefined identifier is accepted), numbers and None pass through unchanged"""
+
+    def requires(self, expression, context, gate_context):
+        return (type_is(self, Builder) and isinstance(context, dict) and isinstance(gate_context, dict)
+                and (is_str(expression) or is_int(expression) or is_float(expression) or is_none(expression)))
+
+    def ensures_identifier(self, expression, context, gate_context, result):
+        return implies(is_str(expression), same(result, dict_lookup(context, expression)))
+
+    def ensures_leaf(self, expression, context, gate_context, result):
+        return implies(not is_str(expression), same(result, expression))
+
+    def raises_JaqalError(self, expression, context, gate_context):
+        return is_str(expression) and not has_key(context, expression)
+
+    raises_only = ("JaqalError",)
+
+
+@contract("core.circuitbuilder:Builder.build_loop", props=["C14", "C16", "C05"])
+class BuildLoop:
+    """a loop is built only with a count that is an integer, a let whose value is not a float, or a macro parameter -
+    anything else (a float, a float-valued let, a register, a qubit) is refused with JaqalError - and its body is what
+    the block expression builds"""
+
+    def requires(self, sexpression, context, gate_context):
+        return (type_is(self, Builder) and type_is(sexpression, SExpression) and isinstance(sexpression._expression, list)
+                and len(sexpression._expression) == 3 and isinstance(context, dict) and isinstance(gate_context, dict))
+
+    def ensures(self, sexpression, context, gate_context, result):
+        return (type_is(result, LoopStatement)
+                and (is_intlike(result._iterations) or isinstance(result._iterations, Parameter)
+                     or (isinstance(result._iterations, Constant) and not is_float(result._iterations._value))))
+
+    def ensures_literal_count(self, sexpression, context, gate_context, result):
+        return implies(is_int(sexpression._expression[1]), same(result._iterations, sexpression._expression[1]))
+
+    def ensures_named_count(self, sexpression, context, gate_context, result):
+        return implies(is_str(sexpression._expression[1]), same(result._iterations, dict_lookup(context, sexpression._expression[1])))
+
+    raises_only = ("JaqalError",)
+
+
+@contract("core.circuitbuilder:as_integer", props=["C14", "C05"])
+class AsInteger:
+    """a number with an integral value becomes that int; everything else (also what is not a number) is returned as it is"""
+
+    def requires(value):
+        return is_int(value) or is_float(value) or is_none(value) or is_str(value)
+
+    def ensures(value, result):
+        return (implies(is_int(value), same(result, value))
+                and implies(is_float(value) and value == int(value), is_int(result) and result == value)
+                and implies(is_float(value) and value != int(value), same(result, value))
+                and implies(is_none(value) or is_str(value), same(result, value)))
+
+    raises_only = ()
+
+
+@contract("core.circuitbuilder:Builder.build_let", props=["C05", "C20"])
+class BuildLet:
+    """let NAME VALUE builds the constant of that name and that value (an integral float as the integer); a let needs
+    exactly a name and a numeric value, else JaqalError"""
+
+    def requires(self, sexpression, _context, _gate_context):
+        return (type_is(self, Builder) and type_is(sexpression, SExpression) and isinstance(sexpression._expression, list)
+                and len(sexpression._expression) >= 1
+                and implies(len(sexpression._expression) == 3, is_int(sexpression._expression[2]) or is_float(sexpression._expression[2])))
+
+    def ensures(self, sexpression, _context, _gate_context, result):
+        return (type_is(result, Constant) and same(result._name, sexpression._expression[1])
+                and (is_int(result._value) or is_float(result._value)) and result._value == sexpression._expression[2]
+                and implies(is_float(sexpression._expression[2]) and sexpression._expression[2] == int(sexpression._expression[2]), is_int(result._value)))
+
+    def raises_JaqalError(self, sexpression, _context, _gate_context):
+        return len(sexpression._expression) != 3
+
+    raises_only = ("JaqalError",)
+
+
+from contracts_registers import wf_reg, size_known, size_of, size_val, kinded
+from jaqalpaq.core.gatedef import AbstractGate, GateDefinition
+
+
+@contract("core.circuitbuilder:Builder.build_array_item", props=["C14", "C07", "C16"])
+class BuildArrayItem:
+    """NAME[INDEX] with a literal index: the name denotes what the context of the use binds it to (C07), which must be a
+    register, alias or macro parameter - anything else is refused with JaqalError (C14) -; for a register or alias the
+    result is the qubit with exactly that source and index, refused with JaqalError when the index is out of range"""
+
+    def requires(self, sexpression, context, gate_context):
+        return (type_is(self, Builder) and type_is(sexpression, SExpression) and isinstance(sexpression._expression, list)
+                and len(sexpression._expression) == 3 and is_str(sexpression._expression[1]) and is_int(sexpression._expression[2])
+                and isinstance(context, dict) and isinstance(gate_context, dict)
+                and implies(has_key(context, sexpression._expression[1]) and type_is(dict_lookup(context, sexpression._expression[1]), Register),
+                            wf_reg(dict_lookup(context, sexpression._expression[1])))
+                and implies(has_key(context, sexpression._expression[1]), not type_is(dict_lookup(context, sexpression._expression[1]), Parameter)))
+
+    def ensures(self, sexpression, context, gate_context, result):
+        return (type_is(result, NamedQubit) and same(result._alias_from, dict_lookup(context, sexpression._expression[1]))
+                and same(result._alias_index, sexpression._expression[2]))
+
+    def raises_JaqalError(self, sexpression, context, gate_context):
+        return (not has_key(context, sexpression._expression[1])
+                or not type_is(dict_lookup(context, sexpression._expression[1]), Register)
+                or (size_known(dict_lookup(context, sexpression._expression[1]))
+                    and not (0 <= sexpression._expression[2] and sexpression._expression[2] < size_of(dict_lookup(context, sexpression._expression[1])))))
+
+    raises_only = ("JaqalError",)
+
+
+@contract("core.circuitbuilder:Builder.get_gate_definition", props=["C14", "C16"])
+class GetGateDefinition:
+    """a gate name denotes the definition the gate context binds it to; with a native gate set in force (or pulse
+    autoloading on) an unknown gate is refused with JaqalError - only without both is an anonymous definition with one
+    parameter per argument created, and then it is recorded so that later uses share it"""
+
+    def requires(self, name, arg_count, gate_context):
+        return (type_is(self, Builder) and is_str(name) and is_int(arg_count) and arg_count >= 0 and isinstance(gate_context, dict)
+                and is_bool(self.autoload_pulses)
+                # domain: the gate is known, or a gate set is in force (the anonymous-definition branch, which allocates
+                # parameters through ParamType.make, is outside this contract)
+                and (has_key(gate_context, name) or self.inject_pulses is not None or self.autoload_pulses))
+
+    def ensures_known(self, name, arg_count, gate_context, result):
+        return same(result, dict_lookup(gate_context, name)) and isinstance(result, AbstractGate)
+
+    def raises_JaqalError(self, name, arg_count, gate_context):
+        return ((has_key(gate_context, name) and not isinstance(dict_lookup(gate_context, name), AbstractGate))
+                or (not has_key(gate_context, name) and (self.inject_pulses is not None or self.autoload_pulses)))
+
+    raises_only = ("JaqalError",)
+
+
+@contract("core.circuitbuilder:Builder.build_register", props=["C14", "C16"])
+class BuildRegister:
+    """register NAME[SIZE] with a literal size builds the declared register of that name and that many qubits; a
+    non-integral size is refused with JaqalError (F43)"""
+
+    def requires(self, sexpression, context, gate_context):
+        return (type_is(self, Builder) and type_is(sexpression, SExpression) and isinstance(sexpression._expression, list)
+                and len(sexpression._expression) == 3 and is_str(sexpression._expression[1])
+                and (is_int(sexpression._expression[2]) or is_float(sexpression._expression[2]))
+                and isinstance(context, dict) and isinstance(gate_context, dict))
+
+    def ensures(self, sexpression, context, gate_context, result):
+        return (type_is(result, Register) and same(result._name, sexpression._expression[1]) and result._alias_from is None
+                and result._alias_slice is None and is_int(result._size) and result._size == sexpression._expression[2])
+
+    def raises_JaqalError(self, sexpression, context, gate_context):
+        return is_float(sexpression._expression[2]) and sexpression._expression[2] != int(sexpression._expression[2])
+
+    raises_only = ("JaqalError",)
+
+
+@contract("core.circuitbuilder:Builder.build_map", props=["C14", "C06", "C01"])
+class BuildMapSlice:
+    """map NAME SRC[START:STOP:STEP] with literal or omitted bounds: SRC denotes what the context binds it to, which must
+    be a register or alias (else JaqalError); the alias built has exactly that source and the slice with an omitted
+    start read as 0, an omitted stop as the source's size and an omitted step as 1"""
+
+    def requires(self, sexpression, context, gate_context):
+        return (type_is(self, Builder) and type_is(sexpression, SExpression) and isinstance(sexpression._expression, list)
+                and len(sexpression._expression) == 6 and is_str(sexpression._expression[1]) and is_str(sexpression._expression[2])
+                and (is_none(sexpression._expression[3]) or is_int(sexpression._expression[3]))
+                and (is_none(sexpression._expression[4]) or is_int(sexpression._expression[4]))
+                and (is_none(sexpression._expression[5]) or is_int(sexpression._expression[5]))
+                and isinstance(context, dict) and isinstance(gate_context, dict)
+                and implies(has_key(context, sexpression._expression[2]) and type_is(dict_lookup(context, sexpression._expression[2]), Register),
+                            wf_reg(dict_lookup(context, sexpression._expression[2])) and size_known(dict_lookup(context, sexpression._expression[2]))
+                            and kinded(size_val(dict_lookup(context, sexpression._expression[2])))))
+
+    def ensures_source(self, sexpression, context, gate_context, result):
+        return (type_is(result, Register) and same(result._name, sexpression._expression[1]) and result._size is None
+                and same(result._alias_from, dict_lookup(context, sexpression._expression[2])) and isinstance(result._alias_slice, slice))
+
+    def ensures_start(self, sexpression, context, gate_context, result):
+        return (implies(is_none(sexpression._expression[3]), same(result._alias_slice.start, 0))
+                and implies(is_int(sexpression._expression[3]), same(result._alias_slice.start, sexpression._expression[3])))
+
+    def ensures_stop_step(self, sexpression, context, gate_context, result):
+        return (implies(is_int(sexpression._expression[4]), same(result._alias_slice.stop, sexpression._expression[4]))
+                and implies(is_none(sexpression._expression[5]), same(result._alias_slice.step, 1))
+                and implies(is_int(sexpression._expression[5]), same(result._alias_slice.step, sexpression._expression[5])))
+
+    def raises_JaqalError_when(self, sexpression, context, gate_context):
+        return not has_key(context, sexpression._expression[2]) or not type_is(dict_lookup(context, sexpression._expression[2]), Register)
+
+    raises_only = ("JaqalError",)
+
+
+@contract("core.circuitbuilder:Builder.build_block", props=["C05", "C20", "C16"])
+class BuildBlock:
+    """a sequential / parallel block expression builds a block of exactly that kind, not a subcircuit, with one statement
+    per argument; the block-context marker put into the context is removed again on every exit"""
+
+    def requires(self, sexpression, context, gate_context, is_parallel):
+        return (type_is(self, Builder) and type_is(sexpression, SExpression) and isinstance(sexpression._expression, list)
+                and len(sexpression._expression) >= 1 and isinstance(context, dict) and isinstance(gate_context, dict) and is_bool(is_parallel))
+
+    modifies = ("context",)
+
+    def ensures(self, sexpression, context, gate_context, is_parallel, result):
+        return (type_is(result, BlockStatement) and result._parallel == is_parallel and result._subcircuit == False and same(result._iterations, 1)
+                and isinstance(result._statements, list) and len(result._statements) == len(sexpression._expression) - 1)
+
+    raises_only = ("JaqalError",)
+
+
+@contract("core.circuitbuilder:Builder.build_subcircuit_block", props=["C05", "C20", "C09", "C16"])
+class BuildSubcircuitBlock:
+    """a subcircuit block expression builds a SEQUENTIAL block annotated as subcircuit, with one statement per argument
+    after the count; the count is exactly what was written - 1 only when it was left out (the empty string), a literal
+    (0 included) as that literal, a name as what the context binds it to -, and a count that is not a number, let or
+    parameter is refused with JaqalError, as is a subcircuit block nested in a subcircuit or parallel block"""
+
+    def requires(self, sexpression, context, gate_context):
+        return (type_is(self, Builder) and type_is(sexpression, SExpression) and isinstance(sexpression._expression, list)
+                and len(sexpression._expression) >= 2 and isinstance(context, dict) and isinstance(gate_context, dict)
+                and (is_int(sexpression._expression[1]) or is_str(sexpression._expression[1])))
+
+    modifies = ("context",)
+
+    def ensures_kind(self, sexpression, context, gate_context, result):
+        return (type_is(result, BlockStatement) and result._parallel == False and result._subcircuit == True
+                and isinstance(result._statements, list) and len(result._statements) == len(sexpression._expression) - 2)
+
+    def ensures_default_count(self, sexpression, context, gate_context, result):
+        return implies(is_str(sexpression._expression[1]) and sexpression._expression[1] == "", same(result._iterations, 1))
+
+    def ensures_literal_count(self, sexpression, context, gate_context, result):
+        return implies(is_int(sexpression._expression[1]), same(result._iterations, sexpression._expression[1]))
+
+    def ensures_named_count(self, sexpression, context, gate_context, result):
+        # (a count written as the builder's own marker name __in_context_subcircuit__ would read the marker: excluded)
+        return implies(is_str(sexpression._expression[1]) and sexpression._expression[1] != "" and sexpression._expression[1] != "__in_context_subcircuit__",
+                       same(result._iterations, old(dict_lookup(context, sexpression._expression[1]))))
+
+    raises_only = ("JaqalError",)
